@@ -119,6 +119,20 @@ def rule_total(run):
             corr = [s_ for s_ in atm[0].orelse if isinstance(s_, ast.If)]
             k2 = 'mulgrid.block_mapping :: above-surface source block moved to the column\'s surface layer'
             if len(corr) == 1:
+                # when: the source column's surface is not above the bottom of the source layer the mapping gave - both of the SOURCE geometry
+                k3 = 'mulgrid.block_mapping :: above-surface test compares the source column with the source layer'
+                pre0 = [x for x in atm[0].orelse if not isinstance(x, ast.If)]
+                t_ = roles.inline_locals(corr[0].test, pre0)
+                r3 = compare(t_, 'self.column[%s].surface <= self.layer[%s].bottom' % (SC, SL))
+                if r3 == 'equal': run.ok(k3, where=bm.where(corr[0]))
+                else:
+                    roots = set(norm(x.value.value) for x in ast.walk(t_) if isinstance(x, ast.Subscript) and isinstance(x.value, ast.Attribute) and x.value.attr in ('layer', 'column'))
+                    keys_ = set(norm(x.slice) for x in ast.walk(t_) if isinstance(x, ast.Subscript) and isinstance(x.value, ast.Attribute) and x.value.attr in ('layer', 'column'))
+                    if roots - set(['self']) or (keys_ - set([SC, SL]) and keys_ & set([role.get('DL'), role.get('DC')])):
+                        run.violated(k3, 'the test is `%s`: it looks a layer / column up in `%s` by %s - the question is whether the SOURCE block (%s, %s) exists, '
+                                     'so both must be the source geometry\'s own' % (norm(corr[0].test), sorted(roots), sorted(keys_), SL, SC), where=bm.where(corr[0]), robust=True)
+                    elif r3 == 'different': run.violated(k3, 'the test is `%s`' % norm(corr[0].test), where=bm.where(corr[0]))
+                    else: run.unknown(k3, 'test `%s`' % norm(corr[0].test), where=bm.where(corr[0]))
                 asg = [x for x in corr[0].body if isinstance(x, ast.Assign) and norm(x.targets[0]) == SL]
                 # locals of the branch (a column looked up once and reused) stand for their definitions
                 pre = [x for x in atm[0].orelse if not isinstance(x, ast.If)]
